@@ -16,6 +16,10 @@ EVENTS = {
     'B1': (['type', 'B1', 'x0', None], [], 'valid'),
     'B2': (['type', 'B2', 'y0', None], [], 'valid'),
     'N1': (['type', 'N1', None, None], [], 'valid'),
+    # a Python subclass of a concrete quantity type: a base type of its own
+    'B1c': (['type', 'B1c', 'xc0', None, 'B1'], ['B1'], 'valid'),
+    'xc1': (['unit', 'B1c', 'xc1', ['scaled', 'i:1000', 'xc0']], ['B1c'],
+            'valid'),
     'S': (['dtype', 'S', [['B1', 2]], None, None], ['B1'], 'valid'),
     'V': (['dtype', 'V', [['B1', 1], ['B2', -1]], None, None],
           ['B1', 'B2'], 'valid'),
@@ -71,6 +75,19 @@ EVENTS = {
                       ['S4', 'k\u2126'], 'valid'),
     '!dup\u2126': (['unit', 'B4', '\u2126', ['scaled', 'i:5', '\u2126']],
                    ['B4'], 'invalid:duplicate symbol'),
+    # two base types whose classes have the same __name__ (declared in two
+    # scopes), and derived types listing them in opposite orders
+    'L1': (['type', 'Level#1', 'l1', None], [], 'valid'),
+    'L2': (['type', 'Level#2', 'l2', None], [], 'valid'),
+    'LL': (['dtype', 'LL', [['Level#1', 1], ['Level#2', 1]], 'll0', None],
+           ['Level#1', 'Level#2'], 'valid'),
+    '!LL2': (['dtype', 'LL2', [['Level#2', 1], ['Level#1', 1]], 'll2', None],
+             ['LL'], 'invalid:dimension taken'),
+    # type definitions that are not terms of quantity types
+    '!Pnum': (['dtype', 'Pn', [['B1', 1], ['B2', 1], ['i:7', 1]], None,
+               None], ['B1', 'B2'], 'invalid:invalid definition'),
+    '!Punits': (['dtype', 'Pu', [['u:x0', 1], ['u:y0', 1]], 'pu0', None],
+                ['B1', 'B2'], 'invalid:invalid definition'),
     # ---- invalid declarations
     '!nmixbad': (['unit', 'N1', 'nmixbad', ['term', [['n1k', 2],
                                                     ['n2k', -1]]]],
@@ -231,6 +248,23 @@ def observe(w, with_ops=True):
                 viol.append((f'C15:instance-type:{how}',
                              f"{how} construction with {sym}: "
                              f"{type(exc).__name__}: {exc}"))
+        # constructing through any other type never yields an instance of
+        # that other type
+        for other in classes:
+            if other is cls:
+                continue
+            for f in (lambda: other(1, u), lambda: other(f"1 {sym}")):
+                try:
+                    q = f()
+                except Exception:
+                    continue
+                if type(q) is cls:
+                    continue
+                viol.append(('C15:instance-type:foreign-class',
+                             f"{other.__name__}(1, {sym}) gives a "
+                             f"{type(q).__name__}; the unit belongs to "
+                             f"{um.tname}"))
+                break
         if um.scale is not None and tm.ref is not None:
             try:
                 got = cls(1, u).convert(cls.ref_unit).amount
